@@ -318,7 +318,7 @@ var WorldAtoms = []WorldAtom{
 		return ss
 	}, false},
 	{"subscription-roots", func(ss []*SvcSpec) []*SvcSpec {
-		ss[0].Sub = append(ss[0].Sub, "n1Changed: N1!", "tick: Int")
+		ss[0].Sub = append(ss[0].Sub, "n1Changed: N1!", "tick: Int", "n1Maybe: N1")
 		return ss
 	}, false},
 	{"upload-roots", func(ss []*SvcSpec) []*SvcSpec {
